@@ -730,11 +730,11 @@ func mdDocActions(relFile string) ([]string, error) {
 func init() {
 	Register(&Rule{
 		ID: "C49", Section: "5 C49",
-		Technique: "table agreement over command tables recovered from SSA (Cmd equality tests, map-literal keys, constant blocks, Markdown tables) plus feasible-path enumeration of the loaders' parameter-count checks matched against every constant Params[k] index reached by each command",
+		Technique: "table agreement over command tables recovered from SSA (Cmd equality tests, map-literal keys, constant blocks, Markdown tables) plus feasible-path enumeration of the loaders' parameter-count checks matched against every constant Params[k] index reached by each command; loop-header-phi analysis of search-and-remove loops over the raw query; interprocedural backward data-flow slices (decoded-path taint into the redirect Location, key agreement between url.Values and RawQuery edits)",
 		Meta: core.Meta{
 			Level:       "other",
-			Explanation: "Decides, for bfe_basic/action (used by mod_rewrite), mod_header and mod_redirect: (1) every Action* command constant has an executing arm in Action.Do and is accepted by ActionFileCheck; every command accepted by a module's ActionFileCheck has an executing arm (Action.Do; mod_header actionConvert + HeaderActionDo/Req|RspCookieActionDo; mod_redirect EXCLUSIVE_ACTIONS + redirectExclusiveActionDo) and no checker lets an unlisted command through; (2) allow-lists (mod_rewrite, mod_prison) only name commands the shared checker accepts; (3) every action named in the Actions table of docs/en_us/modules/{mod_rewrite,mod_header,mod_redirect} is allowed/accepted and executed by that module; (4) for every constant index Params[k] in those packages, each command (or HEADER_MOD sub-command) that can reach the site - from the Cmd tests controlling it and, interprocedurally, its callers - is only accepted with more than k parameters (parameter counts are read off the feasible success paths of the checker); QUERY_ADD needs a non-empty even count because ReqQueryAdd slices off a leading '&'; (5) the checks are on the load path: Action.UnmarshalJSON assigns only after ActionFileCheck returned nil, the mod_header/mod_redirect loaders convert only after their ConfCheck (which reaches ActionFileCheck) returned nil, mod_rewrite rejects commands missing from its allow-list; (6) wiring: each command's arm in Action.Do, HeaderActionDo, Req/RspCookieActionDo and redirectExclusiveActionDo calls the executor that implements the documented action (reviewed command -> function table) and passes Params in their configured order, and mod_header applies REQ_* actions to the request header and RSP_* actions to the response header (getHeaderType, getHeader, processCookie, the two handlers). Not covered: the effect of each action on the request (string semantics of host/path/query edits, percent-encoded or '='-less keys in QUERY_DEL*, ReqHostSuffixReplace reading URL.Host), variable expansion in header values, that mod_header's actionConvert keeps the checked parameter count (reviewed: it never shortens Params).",
-			RuleText:    "obligations = each command x executor wiring; each header-direction selector; each Action* constant x {Do arm, checker}; each accepted command x executor tables; each allow-list key; each documented action; each (function, Params[k], reaching command set); each loader's check-before-use",
+			Explanation: "Decides, for bfe_basic/action (used by mod_rewrite), mod_header and mod_redirect: (1) every Action* command constant has an executing arm in Action.Do and is accepted by ActionFileCheck; every command accepted by a module's ActionFileCheck has an executing arm (Action.Do; mod_header actionConvert + HeaderActionDo/Req|RspCookieActionDo; mod_redirect EXCLUSIVE_ACTIONS + redirectExclusiveActionDo) and no checker lets an unlisted command through; (2) allow-lists (mod_rewrite, mod_prison) only name commands the shared checker accepts; (3) every action named in the Actions table of docs/en_us/modules/{mod_rewrite,mod_header,mod_redirect} is allowed/accepted and executed by that module; (4) for every constant index Params[k] in those packages, each command (or HEADER_MOD sub-command) that can reach the site - from the Cmd tests controlling it and, interprocedurally, its callers - is only accepted with more than k parameters (parameter counts are read off the feasible success paths of the checker); QUERY_ADD needs a non-empty even count because ReqQueryAdd slices off a leading '&'; (5) the checks are on the load path: Action.UnmarshalJSON assigns only after ActionFileCheck returned nil, the mod_header/mod_redirect loaders convert only after their ConfCheck (which reaches ActionFileCheck) returned nil, mod_rewrite rejects commands missing from its allow-list; (6) wiring: each command's arm in Action.Do, HeaderActionDo, Req/RspCookieActionDo and redirectExclusiveActionDo calls the executor that implements the documented action (reviewed command -> function table) and passes Params in their configured order, and mod_header applies REQ_* actions to the request header and RSP_* actions to the response header (getHeaderType, getHeader, processCookie, the two handlers).; (7) effects that have a structural necessary condition - repeated keys: QUERY_RENAME, QUERY_DEL and QUERY_DEL_ALL_EXCEPT edit every occurrence of the key in URL.RawQuery: a removal s[:p]+s[q:] whose position comes from a search over s is iterated (its result flows back to the searched string on a back edge, in place or through a helper), every exit of that loop is computed from the current string, the next search starts at 0 or at most at p (never past the place where the following pair now starts), the first search starts at 0, search/replace patterns begin with the pair delimiter '&', and strings.Replace has a negative count (rawquery-all-occurrences); each key changed in the parsed query (url.Values Del/Set/Add/index store) is a value the string stored to URL.RawQuery is computed from, so the two representations are edited with the same key (query-raw-sync); redirect Location: no value stored to RedirectInfo.Url anywhere in the program is computed (data flow through module helpers, parameters followed to their call sites) from the decoded URL.Path or url.PathUnescape/QueryUnescape unless it passes an escaper (redirect-no-decoded-path), and URL_PREFIX_ADD / SCHEME_SET store the configured string first and the escaped original URI of this request (URL.RequestURI(), or EscapedPath() with RawQuery) last, SCHEME_SET with the request's host in between (redirect-original-uri). Not covered: the remaining string semantics of the actions (offsets inside a removal such as where the value ends, host/path edits, percent-encoded or '='-less keys in QUERY_DEL* - known not to be matched by the raw edit, ReqHostSuffixReplace reading URL.Host, the URL built by bfe_server.Redirect for relative Locations), raw-query editors rewritten in a form other than search-and-remove / strings.Replace are reported as not followed, variable expansion in header values, that mod_header's actionConvert keeps the checked parameter count (reviewed: it never shortens Params).",
+			RuleText:    "obligations = each command x executor wiring; each header-direction selector; each Action* constant x {Do arm, checker}; each accepted command x executor tables; each allow-list key; each documented action; each (function, Params[k], reaching command set); each loader's check-before-use; each key-editing query command x all-occurrences constructs; each parsed-query mutation x raw store; each store to RedirectInfo.Url; each original-uri redirect command",
 			Assumptions: []string{"actions reach executors only through the loaders analysed (Action values are built by UnmarshalJSON / actionConvert)", "mod_header.actionConvert does not shorten Params"},
 		},
 		Run: runC49,
@@ -756,10 +756,22 @@ func init() {
 			{Name: "header-del-sets", File: "bfe_modules/mod_header/action.go", Old: "	case \"HEADER_DEL\":\n		headerDel(h, headerName)", New: "	case \"HEADER_DEL\":\n		headerSet(h, headerName, value)", Expect: "arm-executor|bfe_modules/mod_header.HeaderActionDo:REQ_HEADER_DEL"},
 			{Name: "rsp-actions-on-request", File: "bfe_modules/mod_header/action.go", Old: "	case RspHeader:\n		h = &req.HttpResponse.Header", New: "	case RspHeader:\n		h = &req.HttpRequest.Header", Expect: "header-direction|getHeader"},
 			{Name: "direction-prefix-inverted", File: "bfe_modules/mod_header/header_rule_load.go", Old: "	if strings.HasPrefix(cmd, \"REQ_\") {", New: "	if strings.HasPrefix(cmd, \"RSP_\") {", Expect: "header-direction|getHeaderType"},
-			{Name: "silent-host-suffix-fixed", File: "bfe_basic/action/action.go", Old: "	case ActionHostSet:\n		paramsLenCheck = 1\n", New: "	case ActionHostSet:\n		paramsLenCheck = 1\n	case ActionHostSuffixReplace:\n		paramsLenCheck = 2\n", Silent: true},
-			{Name: "host-suffix-fixed-with-arity-one", File: "bfe_basic/action/action.go", Old: "	case ActionHostSet:\n		paramsLenCheck = 1\n", New: "	case ActionHostSet, ActionHostSuffixReplace:\n		paramsLenCheck = 1\n", Expect: "params-index|bfe_basic/action.Action.Do:Params[1]:HOST_SUFFIX_REPLACE"},
-			{Name: "silent-merge-arity-arms", File: "bfe_basic/action/action.go", Old: "	case ActionHostSet:\n		paramsLenCheck = 1\n	case ActionPathSet, ActionPathPrefixAdd, ActionPathPrefixTrim:\n		paramsLenCheck = 1", New: "	case ActionHostSet, ActionPathSet, ActionPathPrefixAdd, ActionPathPrefixTrim:\n		paramsLenCheck = 1", Silent: true},
+			{Name: "silent-host-arms-reordered", File: "bfe_basic/action/action.go", Old: "	case ActionHostSet:\n		paramsLenCheck = 1\n	case ActionHostSuffixReplace:\n		paramsLenCheck = 2\n", New: "	case ActionHostSuffixReplace:\n		paramsLenCheck = 2\n	case ActionHostSet:\n		paramsLenCheck = 1\n", Silent: true},
+			{Name: "host-suffix-arity-one", File: "bfe_basic/action/action.go", Old: "	case ActionHostSuffixReplace:\n		paramsLenCheck = 2\n", New: "	case ActionHostSuffixReplace:\n		paramsLenCheck = 1\n", Expect: "params-index|bfe_basic/action.Action.Do:Params[1]:HOST_SUFFIX_REPLACE"},
+			{Name: "silent-merge-arity-arms", File: "bfe_basic/action/action.go", Old: "	case ActionHostSuffixReplace:\n		paramsLenCheck = 2\n	case ActionPathSet, ActionPathPrefixAdd, ActionPathPrefixTrim:\n		paramsLenCheck = 1\n	case ActionQueryAdd, ActionQueryRename:\n		paramsLenCheck = 2", New: "	case ActionPathSet, ActionPathPrefixAdd, ActionPathPrefixTrim:\n		paramsLenCheck = 1\n	case ActionHostSuffixReplace, ActionQueryAdd, ActionQueryRename:\n		paramsLenCheck = 2", Silent: true},
 			{Name: "silent-redirect-if-chain", File: "bfe_modules/mod_redirect/action.go", Old: "	switch action.Cmd {\n	case \"SCHEME_SET\":\n		ReqSchemeSet(req, action.Params[0])\n	// for url\n	case \"URL_SET\":\n		ReqUrlSet(req, action.Params[0])", New: "	cmd := action.Cmd\n	if cmd == \"SCHEME_SET\" {\n		ReqSchemeSet(req, action.Params[0])\n		return\n	}\n	switch cmd {\n	// for url\n	case \"URL_SET\":\n		param := action.Params[0]\n		ReqUrlSet(req, param)", Silent: true},
+			{Name: "del-all-except-resumes-past-cut", File: "bfe_basic/action/action_query.go", Old: "\t\tqueries.Del(key)\n\t\tfor {\n\t\t\t// find key start\n\t\t\tstart := strings.Index(rawQuery, \"&\"+key+\"=\")\n\t\t\tif start == -1 {\n\t\t\t\tbreak\n\t\t\t}\n", New: "\t\tqueries.Del(key)\n\t\toffset := 0\n\t\tfor {\n\t\t\t// find key start\n\t\t\tstart := strings.Index(rawQuery[offset:], \"&\"+key+\"=\")\n\t\t\tif start == -1 {\n\t\t\t\tbreak\n\t\t\t}\n\t\t\tstart += offset\n\t\t\toffset = start + 1\n", Expect: "rawquery-all-occurrences|QUERY_DEL_ALL_EXCEPT"},
+			{Name: "silent-del-all-except-resumes-at-cut", File: "bfe_basic/action/action_query.go", Old: "\t\tqueries.Del(key)\n\t\tfor {\n\t\t\t// find key start\n\t\t\tstart := strings.Index(rawQuery, \"&\"+key+\"=\")\n\t\t\tif start == -1 {\n\t\t\t\tbreak\n\t\t\t}\n", New: "\t\tqueries.Del(key)\n\t\toffset := 0\n\t\tfor {\n\t\t\t// find key start\n\t\t\tstart := strings.Index(rawQuery[offset:], \"&\"+key+\"=\")\n\t\t\tif start == -1 {\n\t\t\t\tbreak\n\t\t\t}\n\t\t\tstart += offset\n\t\t\toffset = start\n", Silent: true},
+			{Name: "query-del-single-removal", File: "bfe_basic/action/action_query.go", Old: "\t\t\trawQuery = rawQuery[:start] + rawQuery[start+end+1:]\n\t\t}\n\t}\n\n\t// set rawQuery, remove \"&\" prefix and suffix\n\tif len(rawQuery) == 1 {\n\t\treq.HttpRequest.URL.RawQuery = \"\"\n\t} else {\n\t\treq.HttpRequest.URL.RawQuery = rawQuery[1 : len(rawQuery)-1]\n\t}\n}\n\n// ReqQueryDelAllExcept deletes all keys from query, except some keys\n", New: "\t\t\trawQuery = rawQuery[:start] + rawQuery[start+end+1:]\n\t\t\tbreak\n\t\t}\n\t}\n\n\t// set rawQuery, remove \"&\" prefix and suffix\n\tif len(rawQuery) == 1 {\n\t\treq.HttpRequest.URL.RawQuery = \"\"\n\t} else {\n\t\treq.HttpRequest.URL.RawQuery = rawQuery[1 : len(rawQuery)-1]\n\t}\n}\n\n// ReqQueryDelAllExcept deletes all keys from query, except some keys\n", Expect: "rawquery-all-occurrences|QUERY_DEL"},
+			{Name: "rename-first-occurrence-only", File: "bfe_basic/action/action_query.go", Old: "strings.Replace(rawQuery, srcKey, dstKey, -1)", New: "strings.Replace(rawQuery, srcKey, dstKey, 1)", Expect: "rawquery-all-occurrences|QUERY_RENAME"},
+			{Name: "del-pattern-unanchored", File: "bfe_basic/action/action_query.go", Old: "\t\t\t// find key start &key=\n\t\t\tstart := strings.Index(rawQuery, \"&\"+key+\"=\")", New: "\t\t\t// find key start &key=\n\t\t\tstart := strings.Index(rawQuery, key+\"=\")", Expect: "rawquery-all-occurrences|QUERY_DEL"},
+			{Name: "del-raw-edit-uses-other-key", File: "bfe_basic/action/action_query.go", Old: "\t\t\t// find key start &key=\n\t\t\tstart := strings.Index(rawQuery, \"&\"+key+\"=\")", New: "\t\t\t// find key start &key=\n\t\t\tstart := strings.Index(rawQuery, \"&\"+keys[0]+\"=\")", Expect: "query-raw-sync|ReqQueryDel:"},
+			{Name: "silent-query-del-loop-in-helper", File: "bfe_basic/action/action_query.go", Old: "\t\tqueries.Del(key)\n\n\t\tfor {\n\t\t\t// find key start &key=\n\t\t\tstart := strings.Index(rawQuery, \"&\"+key+\"=\")\n\t\t\tif start == -1 {\n\t\t\t\tbreak\n\t\t\t}\n\n\t\t\t// find value end\n\t\t\tend := strings.Index(rawQuery[start+1:], \"&\")\n\t\t\tif end == -1 {\n\t\t\t\tbreak\n\t\t\t}\n\n\t\t\t// remove start:start+end part\n\t\t\trawQuery = rawQuery[:start] + rawQuery[start+end+1:]\n\t\t}\n\t}\n\n\t// set rawQuery, remove \"&\" prefix and suffix\n\tif len(rawQuery) == 1 {\n\t\treq.HttpRequest.URL.RawQuery = \"\"\n\t} else {\n\t\treq.HttpRequest.URL.RawQuery = rawQuery[1 : len(rawQuery)-1]\n\t}\n}\n\n// ReqQueryDelAllExcept deletes all keys from query, except some keys\n", New: "\t\tqueries.Del(key)\n\t\trawQuery = rawQueryDelKey(rawQuery, key)\n\t}\n\n\t// set rawQuery, remove \"&\" prefix and suffix\n\tif len(rawQuery) == 1 {\n\t\treq.HttpRequest.URL.RawQuery = \"\"\n\t} else {\n\t\treq.HttpRequest.URL.RawQuery = rawQuery[1 : len(rawQuery)-1]\n\t}\n}\n\n// rawQueryDelKey removes all pairs of key from rawQuery (\"&\" prefix and suffix).\nfunc rawQueryDelKey(rawQuery string, key string) string {\n\tpattern := \"&\" + key + \"=\"\n\toffset := 0\n\tfor {\n\t\tindex := strings.Index(rawQuery[offset:], pattern)\n\t\tif index == -1 {\n\t\t\tbreak\n\t\t}\n\t\tstart := offset + index\n\t\tend := strings.Index(rawQuery[start+1:], \"&\")\n\t\tif end == -1 {\n\t\t\tbreak\n\t\t}\n\t\trawQuery = rawQuery[:start] + rawQuery[start+end+1:]\n\t\toffset = start\n\t}\n\treturn rawQuery\n}\n\n// ReqQueryDelAllExcept deletes all keys from query, except some keys\n", Silent: true},
+			{Name: "silent-query-del-cut-in-helper", File: "bfe_basic/action/action_query.go", Old: "\t\t\t// remove start:start+end part\n\t\t\trawQuery = rawQuery[:start] + rawQuery[start+end+1:]\n\t\t}\n\t}\n\n\t// set rawQuery, remove \"&\" prefix and suffix\n\tif len(rawQuery) == 1 {\n\t\treq.HttpRequest.URL.RawQuery = \"\"\n\t} else {\n\t\treq.HttpRequest.URL.RawQuery = rawQuery[1 : len(rawQuery)-1]\n\t}\n}\n\n// ReqQueryDelAllExcept deletes all keys from query, except some keys\n", New: "\t\t\t// remove start:start+end part\n\t\t\trawQuery = rawQueryCutOne(rawQuery, start, end)\n\t\t}\n\t}\n\n\t// set rawQuery, remove \"&\" prefix and suffix\n\tif len(rawQuery) == 1 {\n\t\treq.HttpRequest.URL.RawQuery = \"\"\n\t} else {\n\t\treq.HttpRequest.URL.RawQuery = rawQuery[1 : len(rawQuery)-1]\n\t}\n}\n\nfunc rawQueryCutOne(s string, start int, end int) string {\n\treturn s[:start] + s[start+end+1:]\n}\n\n// ReqQueryDelAllExcept deletes all keys from query, except some keys\n", Silent: true},
+			{Name: "scheme-set-decoded-path", File: "bfe_modules/mod_redirect/action_url.go", Old: "\turi := rawUrl.RequestURI()\n\n\thost := rawUrl.Host", New: "\turi := rawUrl.Path\n\n\thost := rawUrl.Host", Expect: "redirect-no-decoded-path|bfe_modules/mod_redirect.ReqSchemeSet"},
+			{Name: "prefix-add-uri-first", File: "bfe_modules/mod_redirect/action_url.go", Old: "req.Redirect.Url = prefix + uri", New: "req.Redirect.Url = uri + prefix", Expect: "redirect-original-uri|URL_PREFIX_ADD"},
+			{Name: "scheme-set-drops-host", File: "bfe_modules/mod_redirect/action_url.go", Old: "req.Redirect.Url = scheme + \"://\" + host + uri", New: "_ = host\n\treq.Redirect.Url = scheme + \"://\" + uri", Expect: "redirect-original-uri|SCHEME_SET"},
+			{Name: "silent-redirect-uri-helper", File: "bfe_modules/mod_redirect/action_url.go", Old: "// ReqUrlPrefixAdd specify redirect url by adding prefix to original uri(path+query)\n// e.g., url  \"/(.*)\" => \"link$1\",\nfunc ReqUrlPrefixAdd(req *bfe_basic.Request, prefix string) {\n\trawUrl := req.HttpRequest.URL\n\turi := rawUrl.RequestURI()\n", New: "func originalURI(req *bfe_basic.Request) string {\n\treturn req.HttpRequest.URL.RequestURI()\n}\n\n// ReqUrlPrefixAdd specify redirect url by adding prefix to original uri(path+query)\n// e.g., url  \"/(.*)\" => \"link$1\",\nfunc ReqUrlPrefixAdd(req *bfe_basic.Request, prefix string) {\n\turi := originalURI(req)\n", Silent: true},
 		},
 	})
 }
@@ -1078,6 +1090,8 @@ func runC49(c *core.Ctx) {
 	c.Min("check-on-load", 7)
 
 	mdC49Wiring(c, am, hm, rm)
+	mdC49QueryEffects(c)
+	mdC49RedirectEffects(c)
 }
 
 // mdC49Wiring decides that each command's arm calls the executor the
